@@ -677,7 +677,15 @@ class Channel(BaseChannel):
                 if channel_response and hidden_input is not True:
                     buf += self._read_until_input(channel_input=bytes_channel_input)
                 self.send_return()
-                buf += self._read_until_explicit_prompt(prompts=prompts)
+                event_buf = self._read_until_explicit_prompt(prompts=prompts)
+                buf += event_buf
+
+                if self._interaction_complete(
+                    buf=event_buf,
+                    channel_response=channel_response,
+                    interaction_complete_patterns=interaction_complete_patterns,
+                ):
+                    break
 
         processed_buf += self._process_output(
             buf=buf,
